@@ -6,6 +6,8 @@ import (
 	"encoding/json"
 	"fmt"
 	"strings"
+
+	"github.com/ochinchina/sipproxy/vrt/vnet"
 )
 
 // C13 — Route handling: consume the own entry only, keep or strip the next hop as configured,
@@ -291,18 +293,132 @@ func init() {
 		// the fourth further entry is crossed with a reduced alphabet of the others
 		return v[s.idx("e4")] != 0 && (v[s.idx("e1")] > 3 || v[s.idx("e2")] > 3 || v[s.idx("e3")] > 3)
 	}
+	c13Alias := func(c *Ctx) { c13AliasMoves(c, nil) }
 	addCheck(&Check{ID: "C13", Level: "exploration",
 		Rule:   "complete product: first Route entry (16 shapes incl. a port written with a leading zero: own by address/alias/with and without port, near misses, other listeners, decorated own entries, an unresolvable host with the listener's port) x remaining list of 0-3 (thorough 0-4) entries over an 8-entry alphabet (display names, URI parameters valued/valueless/lr in any position, header parameters, %-escapes) x every layout (all compositions into header lines, with/without blank after commas) x keep-next-hop x arrival {UDP, TCP, UDP on a listens entry without address}; the emitted Route list is decoded by the independent reader and compared component-wise with the reference; second pass: all cases of one (keep, first entry) class fed into ONE long-lived world; non-trivial = request carries a Route",
 		Assume: []string{"two services, four listeners (one bound to every local address), host table with aliases; only the first emission is compared (exactly-one is C03)"},
 		Run: func(c *Ctx) {
 			c13Spec.Run(c)
 			c13AgedSpec().Run(c)
+			c13Alias(c)
 		},
 		Replay: func(c *Ctx, raw json.RawMessage) string {
+			var am c13AliasCase
+			if json.Unmarshal(raw, &am) == nil && len(am.States) > 0 {
+				cc := &Ctx{Res: newResult(), vmap: map[string]*Violation{}, Deadline: c.Deadline, NWorkers: 1}
+				c13AliasMoves(cc, &am)
+				if len(cc.Res.Violations) > 0 {
+					return cc.Res.Violations[0].Clause
+				}
+				return ""
+			}
 			if cl, ok := c13AgedSpec().Replay(raw); ok {
 				return cl
 			}
 			return c13Spec.Replay(raw)
 		},
 	})
+}
+
+// ---- an alias that moves ----
+//
+// The first Route entry names the listener by a host name that only the DNS knows. Name resolution
+// changes between requests (the name designates the listener / another host / nothing); each
+// request must be handled according to what the name designates WHEN IT ARRIVES. Differential
+// oracle: the observation in the long-lived world equals the observation of the same request in
+// a fresh world started with the DNS in that state.
+
+type c13AliasCase struct {
+	States []string `json:"alias_states"`
+	GapS   int      `json:"gap_s"`
+	Keep   string   `json:"keep"`
+}
+
+const c13AliasName = "edge-dns.example.net"
+
+func c13AliasSet(state string) {
+	switch state {
+	case "own":
+		vnet.SetHost(c13AliasName, false, "127.0.0.1")
+	case "foreign":
+		vnet.SetHost(c13AliasName, false, "127.0.2.2")
+	case "gone":
+		vnet.SetHost(c13AliasName, true)
+	}
+}
+
+func c13AliasObs(w *RelayWorld, seq int) string {
+	m := MsgSpec{Method: "OPTIONS", RURI: "sip:bob@far.example.net", Vias: []string{fmt.Sprintf("SIP/2.0/UDP 127.0.0.9:5060;branch=z9hG4bKam%d", seq)}, From: "<sip:alice@ua.example.net>;tag=f1", To: "<sip:bob@far.example.net>",
+		Routes: []string{"<sip:" + c13AliasName + ":5060;lr>", "<sip:127.0.2.1:5070;lr>", "<sip:10.9.9.9;lr>"}, CallID: fmt.Sprintf("am-%d", seq), CSeq: "1 OPTIONS"}.Build()
+	w.Observe()
+	w.SendUDP("127.0.0.9:5060", "127.0.0.1:5060", m.Render())
+	obs := w.Observe()
+	if vd := w.S.Verdict(); vd != "" {
+		return "health: " + vd
+	}
+	out := obs.Summary()
+	if len(obs.Pkts) == 1 {
+		if rel, err := ReadWire(obs.Pkts[0].Data); err == nil {
+			rl, _ := rel.NameAddrList("route")
+			out += " Route: " + naList(rl)
+		}
+	}
+	return out
+}
+
+func c13AliasMoves(c *Ctx, only *c13AliasCase) {
+	states := []string{"own", "foreign", "gone"}
+	var idx int64
+	for _, keep := range []string{"", "true"} {
+		ref := map[string]string{}
+		for _, st := range states {
+			st := st
+			preStart = func() { c13AliasSet(st) }
+			w := StartRelayWorld(SimOpts{}, c13Cfgs(keep)...)
+			preStart = nil
+			ref[st] = c13AliasObs(w, 0)
+			w.Close()
+		}
+		if ref["own"] == ref["foreign"] || ref["own"] == ref["gone"] {
+			c.Res.Notes = append(c.Res.Notes, "alias scenario vacuous: the three DNS states are not told apart: "+fmt.Sprint(ref))
+		}
+		for _, gap := range []int{0, 5, 40} {
+			for a := 0; a < 3; a++ {
+				for b := 0; b < 3; b++ {
+					for d := 0; d < 3; d++ {
+						cs := c13AliasCase{States: []string{states[a], states[b], states[d]}, GapS: gap, Keep: keep}
+						if only != nil && (fmt.Sprint(only.States) != fmt.Sprint(cs.States) || only.GapS != gap || only.Keep != keep) {
+							continue
+						}
+						idx++
+						if only == nil && (!c.Mine(idx) || c.Expired()) {
+							continue
+						}
+						preStart = func() { c13AliasSet(cs.States[0]) }
+						w := StartRelayWorld(SimOpts{}, c13Cfgs(keep)...)
+						preStart = nil
+						for i, st := range cs.States {
+							c13AliasSet(st)
+							if i > 0 && gap > 0 {
+								w.S.W.Advance(int64(gap) * 1e9)
+								w.S.Run()
+							}
+							got := c13AliasObs(w, i+1)
+							c.Res.Evaluations++
+							c.Res.Executions++
+							c.Res.Nontrivial++
+							want := strings.ReplaceAll(ref[st], "am-0", fmt.Sprintf("am-%d", i+1))
+							if got != want {
+								c.Violate("alias-moved|"+strings.Join(cs.States[:i+1], ">"), "own-entry-decision-is-stale", fmt.Sprintf("the first Route entry names the listener's port on the host name %s; name resolution history %v with %d s between requests (keep-next-hop-route=%q): request %d, sent while the name designates %q, gave %s; a proxy started in that state gives %s",
+									c13AliasName, cs.States[:i+1], gap, keep, i+1, st, got, want), cs)
+								break
+							}
+						}
+						w.Close()
+						c.Count("alias_histories", 1)
+					}
+				}
+			}
+		}
+	}
 }
